@@ -1815,8 +1815,26 @@ class Interp:
                 if base.attrs.get("__strict__"):
                     raise AnalysisError("%s:%s: %s has no attribute %s" % (self.cur_mod.name, getattr(node, "lineno", "?"), base.name, attr))
             return FuncRef("method", base.name + "." + attr, bound=base)
+        if isinstance(base, Tup) and attr in (getattr(base, "fields", None) or ()):
+            return base.items[base.fields.index(attr)]  # a named tuple's field
         if isinstance(base, (Tup, str, SetV)):
             return FuncRef("method", attr, bound=base)
+        if isinstance(base, FuncRef) and base.kind == "class" and base.node is not None:
+            # Class.method: a classmethod is called with the class itself as its first argument, a staticmethod with none
+            for n in base.node.body:
+                if isinstance(n, ast.FunctionDef) and n.name == attr:
+                    decs = {(dotted_name(d) or "").split(".")[-1] for d in n.decorator_list}
+                    fr = FuncRef("pkg", base.dotted + "." + attr, base.module, n)
+                    if "classmethod" in decs:
+                        return FuncRef("partial", base.dotted + "." + attr, bound=(fr, [base], {}))
+                    return fr
+                if isinstance(n, ast.Assign) and any(isinstance(t, ast.Name) and t.id == attr for t in n.targets):
+                    saved_mod = self.cur_mod
+                    self.cur_mod = base.module
+                    try:
+                        return self.eval(n.value, {})
+                    finally:
+                        self.cur_mod = saved_mod
         if isinstance(base, FuncRef):
             return FuncRef("ext", base.dotted + "." + attr)
         if isinstance(base, Unknown):
@@ -2620,7 +2638,7 @@ class Interp:
             self.loop_stack, self.guard_stack = saved_loops, saved_guards
 
 
-TRANSPARENT_DECORATORS = {"parallelize", "staticmethod", "property"}
+TRANSPARENT_DECORATORS = {"parallelize", "staticmethod", "property", "classmethod"}
 
 BUILTINS = {
     "len", "int", "float", "max", "min", "range", "tuple", "list", "str", "isinstance", "getattr", "abs",
@@ -2629,9 +2647,9 @@ BUILTINS = {
     "complex", "reversed", "map", "filter", "id", "object", "next", "iter", "slice", "KeyError", "IndexError", "ImportError",
 }
 
-EXT_MODULES = {"functools", "numpy", "np", "math", "scipy", "numba", "pyfftw", "os", "logging", "warnings", "hashlib", "pathlib",
+EXT_MODULES = {"copy", "functools", "numpy", "np", "math", "scipy", "numba", "pyfftw", "os", "logging", "warnings", "hashlib", "pathlib",
                "yaml", "xarray", "pickle", "atexit", "dataclasses", "typing", "datetime", "concurrent", "matplotlib", "sys", "argparse"}
-EXT_MODULES_FULL = {"functools", "numpy.subtract", "numpy.add", "numpy", "numpy.fft", "math", "scipy", "scipy.special", "numba", "os", "os.path", "logging", "warnings",
+EXT_MODULES_FULL = {"copy", "functools", "numpy.subtract", "numpy.add", "numpy", "numpy.fft", "math", "scipy", "scipy.special", "numba", "os", "os.path", "logging", "warnings",
                     "hashlib", "pathlib", "yaml", "xarray", "pyfftw", "pyfftw.interfaces", "pyfftw.interfaces.numpy_fft",
                     "pyfftw.interfaces.cache", "pickle", "atexit", "concurrent", "concurrent.futures", "matplotlib", "matplotlib.pyplot", "sys"}
 EXT_CONSTS = {
